@@ -22,7 +22,9 @@ type C08 struct {
 	nt     bool
 }
 
-func init() { RegisterChecker("C08", func() Checker { return &C08{former: map[string]map[string]bool{}} }) }
+func init() {
+	RegisterChecker("C08", func() Checker { return &C08{former: map[string]map[string]bool{}} })
+}
 func (c *C08) ID() string { return "C08" }
 
 const (
@@ -163,7 +165,9 @@ func (c *C08) roleAndFrame(t *TxCtx, m sdk.Msg, resp interface{}) (roleErr strin
 	}
 	feeBurn := func(denom string) func(BankDiff) bool {
 		// the creator pays and the fee is burned: creator balance and total supply of the fee denom shrink
-		return func(d BankDiff) bool { return d.Denom == denom && (d.Addr == signer || d.Addr == "") && d.Delta.Sign() < 0 }
+		return func(d BankDiff) bool {
+			return d.Denom == denom && (d.Addr == signer || d.Addr == "") && d.Delta.Sign() < 0
+		}
 	}
 	switch msg := m.(type) {
 	case *basetypes.MsgCreateClass:
@@ -384,10 +388,14 @@ func (c *C08) roleAndFrame(t *TxCtx, m sdk.Msg, resp interface{}) (roleErr strin
 		fr.rows[tClassFee] = anyChange
 	case *basetypes.MsgAddAllowedBridgeChain:
 		roleErr = authority(msg.Authority)
-		fr.rows[tBridgeChain] = func(d RowDiff) bool { return d.Before == nil && getStr(d.After, "chain_name") == strings.ToLower(msg.ChainName) }
+		fr.rows[tBridgeChain] = func(d RowDiff) bool {
+			return d.Before == nil && getStr(d.After, "chain_name") == strings.ToLower(msg.ChainName)
+		}
 	case *basetypes.MsgRemoveAllowedBridgeChain:
 		roleErr = authority(msg.Authority)
-		fr.rows[tBridgeChain] = func(d RowDiff) bool { return d.After == nil && getStr(d.Before, "chain_name") == strings.ToLower(msg.ChainName) }
+		fr.rows[tBridgeChain] = func(d RowDiff) bool {
+			return d.After == nil && getStr(d.Before, "chain_name") == strings.ToLower(msg.ChainName)
+		}
 	case *baskettypes.MsgUpdateCurator:
 		bk := pre.BasketByDenom(msg.Denom)
 		if bk == nil {
@@ -594,6 +602,8 @@ func (c *C08) sealCheck(w *World, pre, post *Snapshot, what string) {
 	}
 }
 
-func (c *C08) AfterBegin(w *World, b *BeginCtx)     { c.sealCheck(w, b.Pre, b.Post, "BeginBlock") }
-func (c *C08) AfterRestart(w *World, r *RestartCtx) { c.sealCheck(w, r.Pre, r.Post, "restart("+r.Kind+")") }
-func (c *C08) NonTrivial(w *World) bool             { return c.nt }
+func (c *C08) AfterBegin(w *World, b *BeginCtx) { c.sealCheck(w, b.Pre, b.Post, "BeginBlock") }
+func (c *C08) AfterRestart(w *World, r *RestartCtx) {
+	c.sealCheck(w, r.Pre, r.Post, "restart("+r.Kind+")")
+}
+func (c *C08) NonTrivial(w *World) bool { return c.nt }
